@@ -93,6 +93,8 @@ Spec == Init /\ [][Next]_vars /\ WF_vars(HsTimerFire) /\ WF_vars(TcpLost)
 \* ---- properties ---------------------------------------------------------------
 PrefixAlways == clientGot <= submitted                                              \* C06
 CompleteAtClose == closeNotify => clientGot = submitted                             \* C06
+\* C01/C15: once the server has sent its close_notify the TCP connection is closed as well (it does not wait for the peer)
+ClosedAfterCloseNotify == closeNotify => tcp # "open"
 InnerOnlyAfterHandshake == innerUp => hs = "done"                                   \* C20
 NoPlainBeforeTls == (hs # "done") => plainIn = 0                                    \* C20
 PlainInOrder == plainIn <= AppBytes(1, fed)                                         \* C07
